@@ -6,7 +6,7 @@ HARNESS = ["dht/c04_test.go"]
 GO_TEST = "TestVerifC04"
 RUN_MODULE = "Run_C04"
 COQ_TARGETS = ["Corr/Run_C04.vo", "Proofs/ValueSearchProofs.vo"]
-N = {"quick": 1500, "thorough": 40000}
+N = {"quick": 1500, "thorough": 20000}
 RULE = ("random cases: client standard / accelerated (fullrt) / dual; operation SearchValue / GetValue / GetPublicKey; 2-12 responders "
         "(WAN or LAN for dual) answering valid-new / valid-old / stale (outside the validator's clock-dependent validity window) / invalid / "
         "Select-error / mis-keyed / nil value / no record / error; local store none / valid / stale-by-validator / corrupt; quorum "
